@@ -39,8 +39,10 @@ MODELLED_NOT_VERIFIED = [
     "and its table for code points 0..255 is taken from the running interpreter on every run (Gen/C08Kernels.lean; the model folds with that "
     "table; fold_table_is_latin1_lower proves it is the closed-form Latin-1 lower-casing); above 255 the model claims nothing (driver: "
     "out-of-range; oracle only). Source immutability is a theorem about the object-store model (extract_frame / extract_result_is_new, "
-    "Model/C08Heap.lean); that the store model behaves like the code is the per-case comparison of op extractheap, and the functional "
-    "extractTree and the store model are tied to each other only through those comparisons (no equivalence theorem). Node "
+    "Model/C08Heap.lean); that the store model behaves like the code is the per-case comparison of op extractheap; the functional "
+    "extractTree and the store model are proved equal for suppress_unifurcations=False (extract_store_eq_functional_nosup) and tied only "
+    "through those comparisons for suppress_unifurcations=True (in-place length updates: needs 'memo entries are read once' and 'the stray "
+    "nd1 write only hits clones that never reach the result'). Node "
     "labels/annotations are checked by the harness only; filter functions are represented by the set of node ids / "
     "taxa they accept; update_bipartitions=True is exercised on all three rooting states for prune_taxa(_with_labels on unique labels), "
     "retain_taxa, filter_leaf_nodes and prune_subtree (unrooted: the oracle expects the induced subtree with its basal bifurcation "
@@ -78,8 +80,10 @@ EXPLANATION = ("Theorems over all trees/predicates about the definitions drv_c08
                "the code against a from-scratch version of it), restrict_composes / prune_subtree_twice (a call with suppression declined followed "
                "by a default call = one restriction of the original tree; no unary node survives). "
                "Harness only: source immutability across histories of operations on live objects, node/edge labels, types produced by "
-               "tree_factory/node_factory, labels beyond code point 255. No equivalence theorem between the object-store model (extractHeap) and "
-               "the functional extractTree: they are tied by the per-case comparison of op extractheap only.")
+               "tree_factory/node_factory, labels beyond code point 255. wave 3: extract_store_eq_functional_nosup (any store that holds the source tree, any filter, both "
+               "filter flags, suppress_unifurcations=False: the object-store loop extractHeap ends with the same exception as the functional "
+               "extractTree or with a start address at which the store holds, object for object, the tree extractTree returns). With "
+               "suppress_unifurcations=True the two models are tied by the per-case comparison of op extractheap only.")
 
 
 ROOT = {True: "R", False: "U", None: "N"}
